@@ -9,6 +9,7 @@ import Bourse.Lemmas.Reach
 import Bourse.Lemmas.ViewsCorrect
 import Bourse.Lemmas.Grid
 import Bourse.Spec.Audit
+import Bourse.Lemmas.Uncrossed
 
 namespace Bourse.Props.C02
 open Bourse
@@ -150,6 +151,58 @@ example :
     let b := b0.run ops
     let r := ops.foldl (fun s op => (Ref.step s op).1) (Ref.init 0 2 true)
     b.observe 3 = Ref.observe r 3 ∧ b.bidAsk = (8, 10) ∧ b.askBestVolAndOrders = (2, 1) := by
+  decide
+
+
+/-! ### Never crossed while trading has never been disabled -/
+
+/-- **C02, last sentence.** For every valid fault-free history on a book created with trading
+enabled that never disables trading: whenever both sides are non-empty, the published best bid is
+strictly below the published best ask. (The entrant trades away everything its limit admits before
+it may rest — `enter_uncrossed` — and every other operation only removes orders or keeps prices.) -/
+theorem never_crossed (t0 tick : Nat) (ht : 0 < tick) (ops : List Op)
+    (hv : ∀ op ∈ ops, ValidOp op) (hno : ∀ op ∈ ops, op ≠ .trading false)
+    (hnf : NoFault (Book.new t0 tick true) ops) :
+    let b := (Book.new t0 tick true).run ops
+    b.bid.orders ≠ [] → b.ask.orders ≠ [] → b.bidAsk.1 < b.bidAsk.2 := by
+  intro b hb ha
+  have h := inv_reachable t0 tick true ht ops hv hnf
+  have hu0 : RUncrossed (abs (Book.new t0 tick true)) := by
+    intro sd i j hi _
+    cases sd <;> simp [abs, Book.new, absq, SideS.empty, Ref.RState.queue] at hi
+  have hu := uncrossed_run (inv_new t0 tick true ht) hu0 rfl ops hv hno hnf
+  exact bidAsk_lt_of_uncrossed h hu hb ha
+
+/-- The same fact as the audit predicate the driver evaluates on the real implementation: it reports
+nothing on the model's observation of any such state. -/
+theorem audit_uncrossed_passes (t0 tick : Nat) (ht : 0 < tick) (ops : List Op)
+    (hv : ∀ op ∈ ops, ValidOp op) (hno : ∀ op ∈ ops, op ≠ .trading false)
+    (hnf : NoFault (Book.new t0 tick true) ops) (n : Nat) :
+    Audit.c02Uncrossed true (((Book.new t0 tick true).run ops).observe n) = [] := by
+  have h := inv_reachable t0 tick true ht ops hv hnf
+  have hnc := never_crossed t0 tick ht ops hv hno hnf
+  simp only at hnc
+  have hvw := views_correct h 0 (by intro i hi; omega)
+  simp only [Audit.c02Uncrossed, Audit.chk, Book.observe, Bool.not_true, Bool.false_or]
+  by_cases hb : ((Book.new t0 tick true).run ops).bid.orders = []
+  · have := resting_nil_of_queue_nil h .bid hb
+    simp [this]
+  · by_cases ha : ((Book.new t0 tick true).run ops).ask.orders = []
+    · have := resting_nil_of_queue_nil h .ask ha
+      simp [this]
+    · have hlt := hnc hb ha
+      rw [hvw.1] at hlt
+      simp only at hlt
+      simp [hlt]
+
+/-- Non-vacuity: both sides populated after trades, a cancel and a re-price that trades. -/
+example :
+    let ops : List Op := [.cap .ask 5 1 (some 10), .cap .ask 7 2 (some 12), .cap .bid 3 3 (some 10),
+      .cap .bid 4 4 (some 8), .cap .bid 6 5 (some 6), .cancel 3, .modify 4 (some 10) (some 9)]
+    let b := (Book.new 0 2 true).run ops
+    NoFault (Book.new 0 2 true) ops ∧ b.bid.orders ≠ [] ∧ b.ask.orders ≠ [] ∧ b.bidAsk = (10, 12) := by
+  refine ⟨?_, by decide, by decide, by decide⟩
+  simp only [NoFault, and_true]
   decide
 
 end Bourse.Props.C02
